@@ -55,6 +55,7 @@ pub struct RunResult {
     pub panic: Option<String>,
     /// `process::exit(code)` called by the generator
     pub exit_code: Option<i32>,
+    pub hard_fired: bool,
     pub diverged: bool,
     pub leftover_decisions: usize,
     pub verbose_log: Option<Vec<String>>,
@@ -85,12 +86,25 @@ pub fn install_panic_hook() {
 }
 
 pub fn execute(gen: Gen, image: &Arc<FsImage>, mode: Mode, collect: bool, verbose: bool) -> RunResult {
+    execute_with(gen, image, mode, collect, verbose, None)
+}
+
+pub fn execute_with(
+    gen: Gen,
+    image: &Arc<FsImage>,
+    mode: Mode,
+    collect: bool,
+    verbose: bool,
+    hard: Option<world::HardPlan>,
+) -> RunResult {
     let profile = match &mode {
         Mode::Random { profile, .. } => Some(*profile),
         Mode::Replay { .. } => None,
     };
     world::PANIC_INFO.with(|p| *p.borrow_mut() = None);
-    world::install(World::new(image.clone(), mode, collect, verbose));
+    let mut fresh = World::new(image.clone(), mode, collect, verbose);
+    fresh.hard = hard;
+    world::install(fresh);
     let r = catch_unwind(AssertUnwindSafe(|| match gen {
         Gen::Layout => crate::gens::layout::run(),
         Gen::Likely => crate::gens::likely::run(),
@@ -149,6 +163,7 @@ pub fn execute(gen: Gen, image: &Arc<FsImage>, mode: Mode, collect: bool, verbos
         dir_orders: w.dir_orders,
         panic,
         exit_code,
+        hard_fired: w.hard_fired,
         diverged: w.diverged,
         leftover_decisions: leftover,
         verbose_log: w.verbose_log,
